@@ -446,7 +446,32 @@ func runC12(c *Ctx) {
 			c.obI("R12.5", r, "every-successful-response-is-wrapped", ok, "with connection reuse enabled every successful response leaves RoundTrip with its body wrapped in the draining closer (whatever its declared length: a chunked or unknown-length body is drained on Close like any other)", "a successful response can be returned with its body unwrapped")
 		}
 	}
-	c.min("R12.5", 9)
+	// enabling connection reuse installs the draining transport where Submit will find it: in the client the runtime
+	// already holds (if any), else in Runtime.Transport (from which the default client is built)
+	{
+		ecr := p.Fn("(*rt/client.Runtime).EnableConnectionReuse")
+		isKA := vOrigins(oCall(-1, "rt/client.KeepAliveTransport"))
+		noClient := factNil(vFieldLoadO("rt/client.Runtime", "client"), true)
+		hasClient := factNil(vFieldLoadO("rt/client.Runtime", "client"), false)
+		var intoClient, intoRuntime []ssa.Instruction
+		for _, st := range fieldStores(ecr, "net/http.Client", "Transport") {
+			if isKA(st.Val) {
+				intoClient = append(intoClient, st)
+			}
+		}
+		for _, st := range fieldStores(ecr, "rt/client.Runtime", "Transport") {
+			if isKA(st.Val) {
+				intoRuntime = append(intoRuntime, st)
+			}
+		}
+		for _, r := range realReturns(ecr) {
+			missC := pathExists(ecr, nil, r, noClient, isOneOf(intoClient...))
+			c.obI("R12.5", r, "reuse-installed-in-existing-client", !missC && len(intoClient) > 0, "when the runtime already holds an http.Client, the draining transport is installed in THAT client (its Transport field): Submit uses that client, not Runtime.Transport", "with a client present, EnableConnectionReuse can return without having wrapped the client's transport")
+			missR := pathExists(ecr, nil, r, hasClient, isOneOf(intoRuntime...))
+			c.obI("R12.5", r, "reuse-installed-in-runtime-transport", !missR && len(intoRuntime) > 0, "without a client yet, the draining transport is installed in Runtime.Transport (the default client is built from it)", "")
+		}
+	}
+	c.min("R12.5", 11)
 
 	// R12.6 who may spawn
 	entries := []*ssa.Function{sub, p.Fn("(*rt/client.Runtime).CreateHttpRequest")}
